@@ -703,3 +703,63 @@ def r_reject(ctx) -> RuleResult:
         raise AnalysisError(f"R-REJECT: only {n_sites} raise sites found in the parser's own code")
     res.counts = {"raise_sites": n_sites, "kinds": sorted(seen_kinds)}
     return res
+
+
+# --------------------------------------------------------------------------- R-PARSEPATH
+
+
+@rule("R-PARSEPATH")
+def r_parsepath(ctx) -> RuleResult:
+    res = RuleResult("R-PARSEPATH", "graph_from_tucan hands back a graph only on paths that went through the generated parser's start rule: nothing else decides what is accepted")
+    from ..gram import grammars
+    ent = entry(ctx, "parse")
+    G = grammars(ctx)
+    start = "tucan" if "tucan" in G.g4 else next(iter(G.g4))
+    fn = ent.node
+    cfg = cfg_of(fn)
+
+    def reaches_start(f, node, depth=0) -> bool:
+        """does evaluating `node` (in f) always call the parser's start rule?  The call itself, or a call of a repository
+        function on every path of which the start rule is called"""
+        for x in ast.walk(node):
+            if isinstance(x, ast.Call) and isinstance(x.func, ast.Attribute) and x.func.attr == start and not x.args:
+                return True
+        if depth > 3:
+            return False
+        for x in ast.walk(node):
+            if isinstance(x, ast.Call):
+                cs = ctx.cg.resolve_call(f, x, ctx.cg.local_types(f), set(params_of(f.node)))
+                if cs.kind == "tucan":
+                    h = cs.target
+                    c2 = cfg_of(h.node)
+                    pn = [c2.stmt_node_containing(y) for y in own_walk(h.node) if isinstance(y, ast.stmt) and y is not h.node and reaches_start(h, y, depth + 1) and not isinstance(y, (ast.If, ast.For, ast.While, ast.Try, ast.With))]
+                    pn = [p for p in pn if p is not None]
+                    if pn and c2.path_avoiding(c2.ENTRY, c2.EXIT, pn) is None:
+                        return True
+        return False
+    parse_nodes = []
+    for st in own_walk(fn):
+        if isinstance(st, ast.stmt) and st is not fn and not isinstance(st, (ast.If, ast.For, ast.While, ast.Try, ast.With, ast.FunctionDef)) and reaches_start(ent, st):
+            n = cfg.node_of(st) if cfg.node_of(st) is not None else cfg.stmt_node_containing(st)
+            if n is not None:
+                parse_nodes.append(n)
+    if not parse_nodes:
+        raise AnalysisError(f"R-PARSEPATH: no statement of graph_from_tucan calls the start rule `{start}` of the generated parser (directly or through a helper)")
+    rets = [r for r in own_walk(fn) if isinstance(r, ast.Return) and r.value is not None]
+    bad = None
+    for r in rets:
+        rn = cfg.node_of(r)
+        if rn in parse_nodes:
+            continue
+        p = cfg.path_avoiding(cfg.ENTRY, rn, parse_nodes)
+        if p is not None:
+            bad = (r, p)
+            break
+    res.inst(ent.fq, f"every `return <graph>` is reached only through {len(parse_nodes)} statement(s) that run the start rule `{start}`", "fail" if bad else "ok")
+    if bad:
+        r, p = bad
+        res.fail(Finding("R-PARSEPATH", ent.module.rel, ent.qualname, "path: " + " ; ".join(cfg.describe(x) for x in p[1:])[:300],
+                         f"a graph is handed back on a path that never runs the generated parser's start rule `{start}`: what is accepted on that path is decided by other code, "
+                         "not by the grammar (the equivalence EBNF = G4 = generated parser says nothing about it)", line=r.lineno))
+    res.counts = {"parse_statements": len(parse_nodes), "returns": len(rets)}
+    return res
